@@ -138,7 +138,15 @@ func (g *Gen) Setup() error {
 		return b
 	}
 	g.actors = [][]byte{mk(1, 0x03), {0x03, 0x03}, mk(19, 0x11), mk(20, 0x22), mk(21, 0x22), mk(32, 0x44), mk(255, 0x55), {0x01}, mk(20, 0x66)}
-	for i := 1; i <= 2; i++ {
+	nKeys := 2
+	if g.Profile == "keyed" {
+		// every actor is a 20-byte secp256k1 account whose key the harness holds (registered with `key` lines): each
+		// transaction of the history can be signed, so the whole history can be replayed in tx mode (txmode.go).
+		// Otherwise the profile is `lifecycle`: all message kinds, wrong senders from the same pool, invalid values.
+		g.actors = nil
+		nKeys = 11
+	}
+	for i := 1; i <= nKeys; i++ {
 		a := sdk.AccAddress(KeyFor(i).PubKey().Address())
 		g.actors = append(g.actors, a)
 		g.keyIdx[string(a)] = i
@@ -221,8 +229,8 @@ func (g *Gen) Setup() error {
 			}
 		}
 	}
-	for a, i := range g.keyIdx {
-		if err := g.line("key idx=%d addr=%s", i, hexs([]byte(a))); err != nil {
+	for i := 1; i <= nKeys; i++ { // in index order (the map's order is not fixed)
+		if err := g.line("key idx=%d addr=%s", i, hexs(sdk.AccAddress(KeyFor(i).PubKey().Address()))); err != nil {
 			return err
 		}
 	}
@@ -1292,7 +1300,7 @@ func (g *Gen) Block() error {
 	switch g.Profile {
 	case "genesis", "extreme":
 		jumpP = 0.07
-	case "lifecycle":
+	case "lifecycle", "keyed":
 		jumpP = 0.03
 	}
 	if g.chance(jumpP) {
